@@ -6,10 +6,10 @@ import vf, sm
 CFGS = {
     "T1": dict(part="transfer", n=1), "T2": dict(part="transfer", n=2), "T4": dict(part="transfer", n=4),
     "T8": dict(part="transfer", n=8), "T32": dict(part="transfer", n=32), "T128": dict(part="transfer", n=128),
-    "Serve": dict(part="serve", n=1), "Ids4": dict(part="ids", n=1, nbits=4), "Ids5": dict(part="ids", n=1, nbits=5),
+    "Serve": dict(part="serve", n=1), "Ids4": dict(part="ids", n=1, nbits=4),
 }
 QUICK = ["T1", "T2", "T4", "T32", "Serve", "Ids4"]
-THOROUGH = ["T1", "T2", "T4", "T8", "T32", "T128", "Serve", "Ids4", "Ids5"]
+THOROUGH = ["T1", "T2", "T4", "T8", "T32", "T128", "Serve", "Ids4"]
 
 # a real NtpSource (chunk size 16, 32 chunks) against a server whose filter does / does not contain our server id
 SOURCE_CASES = [
@@ -162,7 +162,7 @@ def run(prop, tier, seed):
     try:
         for c in cfgs:
             n = CFGS[c]["n"]
-            b.model_and_replay(out, prop, tier, seed, c, max_len=max(60, 3 * n + 30))
+            b.model_and_replay(out, prop, tier, seed, c, max_len=max(60, 8 * n + 100))
     finally:
         vf.collect_graph = orig
     b.trace(out, prop, tier, seed, "transfer")
